@@ -413,6 +413,7 @@ fn registry() -> HashMap<&'static str, OpFn> {
 
 fn main() {
     std::panic::set_hook(Box::new(|info| {
+        let was = mem::pause();
         let msg = if let Some(s) = info.payload().downcast_ref::<&str>() {
             s.to_string()
         } else if let Some(s) = info.payload().downcast_ref::<String>() {
@@ -425,6 +426,9 @@ fn main() {
             .map(|l| format!("{}:{}", l.file(), l.line()))
             .unwrap_or_default();
         LAST_PANIC.with(|p| *p.borrow_mut() = format!("{}@{}", msg, loc));
+        drop(msg);
+        drop(loc);
+        mem::resume(was);
     }));
     let args: Vec<String> = std::env::args().collect();
     // usage: vdriver [infile [outfile]]
